@@ -171,6 +171,17 @@ EXTRA7 = {
     "C18": " RESOLVE: as C05.RESOLVE.",
 }
 
+EXTRA8 = {
+    "C01": " ROW also runs remove() on a single-valued row and on a value that is not in the row.",
+    "C02": " ROW: as C01.ROW. EVERY: a cascade loop that removes dependents calls the removal on every path back to its head.",
+    "C04": " BOTH: the resolutions of offset.begin and offset.end each dominate every Ok answer of a function that resolves either.",
+    "C09": " RESULTTYPE: every result type the query parsers can produce has a keyword in the printer's table.",
+    "C10": " KEYDATA: remove_key removes every data item of the key (C02.EVERY on remove_key).",
+    "C12": " SPLIT: split_text's constructor and SplitTextIter::next, interpreted together, hand the resource's byte->codepoint conversion the absolute bytes of each piece. UNIT follows Option::map into closures.",
+    "C13": " FLAG evaluates add() on members with and without handles.",
+    "C17": " SETLOCAL: no collection of the exporter is keyed by a set-local handle.",
+}
+
 TECH_EXTRA = {
     "C01": "; interpretation of the extracted RelationMap / TripleRelationMap / ExclusiveRelationMap methods and of the multi-target match of inserted() against reference maps (lib/formula.py)",
     "C02": "; MIR must-pass-through rules on the removal routines; interpretation of the index maps' removal methods",
@@ -196,6 +207,8 @@ def main():
         c_ = CHECKS[k_]
         if not c_[1].endswith(v_):
             CHECKS[k_] = (c_[0], c_[1] + v_, c_[2], c_[3], c_[4], c_[5])
+    for k_, v_ in EXTRA8.items():
+        EXTRA7[k_] = EXTRA7.get(k_, "") + v_
     for k_, v_ in EXTRA7.items():
         EXTRA6[k_] = EXTRA6.get(k_, "") + v_
     for k_, v_ in EXTRA6.items():
